@@ -83,18 +83,21 @@ type c18Obs struct {
 
 func c18Harness(h *gwHarness, sc c18Scenario) explore.Harness {
 	return func() (func(), func(*vrt.Sched) (string, string)) {
+		h.begin()
 		o := &c18Obs{}
 		run := func() {
 			h.fed.Fakes.Reset()
 			env := &wsEnv{fed: h.fed, scripts: sc.up, startedC: vrt.MakeChan[int](8)}
 			o.env = env
 			env.install()
+			connID := h.guard.open()
+			defer h.guard.close(connID)
 			cli, srv := vrt.Pipe("client")
 			o.srv = srv
 			// what the client receives is read off the server end's write log afterwards
 			hdone := vrt.MakeChan[int](1)
 			vrt.GoNamed("handler", func() {
-				h.fed.GW.Handler(&hijackWriter{conn: srv}, upgradeRequest())
+				h.fed.GW.Handler(&hijackWriter{conn: srv}, upgradeRequest(connID))
 				o.handlerReturned = true
 				vrt.Send(hdone, 1)
 			})
@@ -304,7 +307,7 @@ func init() {
 				sc := sc
 				out = append(out, Scenario{Name: sc.name(), Atoms: sc.atoms(),
 					Opt: explore.Options{Bound: sc.bound, Cache: true, TimerBudget: sc.timers, Horizon: 100000},
-					H:   c18Harness(h, sc)})
+					H:   c18Harness(h, sc), Fresh: func() explore.Harness { return c18Harness(h.freshCopy(), sc) }})
 			}
 			return out
 		},
